@@ -966,6 +966,8 @@ class H3Connection:
             and stream.frame_size is not None
             and len(stream.buffer) < stream.frame_size
         ):
+            if stream_ended:
+                raise FrameError("Stream ended in the middle of a frame")
             stream.content_length += len(stream.buffer)
             http_events.append(
                 DataReceived(
@@ -981,6 +983,8 @@ class H3Connection:
 
         # handle lone FIN
         if stream_ended and not stream.buffer:
+            if stream.frame_size is not None:
+                raise FrameError("Stream ended in the middle of a frame")
             self._check_content_length(stream)
 
             http_events.append(
@@ -1074,6 +1078,24 @@ class H3Connection:
 
         # remove processed data from buffer
         stream.buffer = stream.buffer[consumed:]
+
+        if stream.receiving_ended and not stream.blocked:
+            # a frame which is truncated by the end of the stream is an error
+            if stream.buffer or stream.frame_size is not None:
+                raise FrameError("Stream ended in the middle of a frame")
+
+            # the end of the stream must be reported even if the last frame
+            # did not produce an event (e.g. a frame of an unknown type)
+            if not http_events or not http_events[-1].stream_ended:
+                self._check_content_length(stream)
+                http_events.append(
+                    DataReceived(
+                        data=b"",
+                        push_id=stream.push_id,
+                        stream_id=stream.stream_id,
+                        stream_ended=True,
+                    )
+                )
 
         return http_events
 
